@@ -22,6 +22,7 @@ import ModVerif.Proofs.EditMoreNoPanic
 import ModVerif.Proofs.EditMarkerInv
 import ModVerif.Proofs.EditPanicRun
 import ModVerif.Proofs.EditReparseF
+import ModVerif.Proofs.EditGoodBlocksC
 namespace ModVerif.Props.C15
 open ModVerif ModVerif.EditSpec ModVerif.Modfile
 
@@ -617,7 +618,8 @@ example : Edit.P.Inv (Edit.load {}) ∧
     operation may write are `ItemOK` (`argsOKB`); `Edit.AbsPerm a b` = scalars equal, every list equal AS A MULTISET,
     retractions compared by interval (the rationale is where `C15_violated_retract_*` live, it is not compared);
     `Edit.finalTreeB t` = the conditions on the FINAL tree that are assumed, not derived: blocks carry block verbs (no
-    `go (` / `toolchain (` block — true of every reachable tree, not proved), and the comments stand where the parser puts
+    `go (` / `toolchain (` block — an invariant of every session: `goodBlocks_invariant` below, which removes this half of
+    the hypothesis in `typed_eq_reparse_partial3` / `partial4` / `partial_run3`), and the comments stand where the parser puts
     them (`comStmtB`: `//` texts, a blank-line placeholder only inside a block, not at its start and not after another one,
     at most one end-of-line comment per line / `(` / `)`, no header comment).  The last condition can genuinely fail after
     edits (SortBlocks moves a line preceded by a blank line to the top of its block: `C15_violated_retract_blank_line_dropped`
@@ -747,5 +749,116 @@ example : Edit.IOK [(1, Edit.Item.go (B "1.21"))] ∧ Edit.FI [(1, Edit.Item.go 
   · intro a b p q h; simp at h
   · intro a b p q h1 h2; simp at h1 h2; omega
   · intro a b p q h; simp at h
+
+/-! ### `GoodBlocks` is an invariant: the final-tree hypothesis of `typed_eq_reparse` reduced to the comment placement
+    (Proofs/EditGoodBlocks{A,B,C}.lean)
+
+    `Edit.GoodBlocks stmts`: every `LineBlock` whose token list is one verb carries a block verb of the strict parser
+    (module / godebug / require / exclude / replace / retract / tool) — no `go (` / `toolchain (` block.  It holds of every
+    strictly parsed file (anything else is an `unknown block type` error), and every go.mod operation preserves it in a
+    state satisfying `Edit.Inv`: the only primitive that makes a block with the verb of a LINE is `addLine`'s hinted walk
+    (a live top-level line whose first token is the verb of the new line), and `AddGoStmt` / `AddToolchainStmt` call it only
+    when there is no typed `go` / `toolchain` entry, hence — `Inv` — no live line with that verb; lines marked removed have
+    no tokens and are never converted. -/
+
+/-- the strict parser accepts block verbs only -/
+theorem parsed_goodBlocks {name data : Bytes} {f : File} (h : parseToFile name data none true = .ok f) :
+    Edit.GoodBlocks f.syn.stmts ∧ Edit.GoodBlocks (Edit.load f).f.syn.stmts :=
+  ⟨Edit.parseStrict_goodBlocks h, (Edit.goodBlocks_load f).2 (Edit.parseStrict_goodBlocks h)⟩
+
+/-- **every go.mod operation preserves `GoodBlocks`**, for arbitrary arguments, in a state satisfying the tree invariant -/
+theorem op_preserves_goodBlocks (e e' : Edit.EFile) (op : Edit.Op) (hi : Edit.Inv e) (h : Edit.GoodBlocks e.f.syn.stmts)
+    (ha : Edit.applyMod e op = some (.ok e')) : Edit.GoodBlocks e'.f.syn.stmts :=
+  (Edit.gb_iff _).1 (Edit.applyMod_gb e e' op hi ((Edit.gb_iff _).2 h) ha)
+
+/-- **`GoodBlocks` along a session**: from every strictly parsed go.mod (start conditions of `typed_eq_tree_partial4_static`), after
+    every statically valid session, before and after the final Cleanup, no block of the tree is a `go (` / `toolchain (`
+    block; on `sessionMod`: the Boolean test `goodBlocksB` of the outcome's tree is true -/
+theorem goodBlocks_invariant (name data : Bytes) (f : File) (ops : List Edit.Op) (e' : Edit.EFile) (res : List Bool)
+    (hf : parseToFile name data none true = .ok f) (hk : Edit.WellFormedKeys f) (hs : Edit.NoBlockSuffix f.syn)
+    (hm : Edit.MarkersSettable f.syn.stmts) (hv : Edit.StaticValid false ops)
+    (h : Edit.runOps Edit.applyMod (Edit.load f) ops [] 0 = .done e' res) :
+    Edit.GoodBlocks e'.f.syn.stmts ∧ Edit.GoodBlocks (Edit.cleanup e').f.syn.stmts :=
+  ⟨(Edit.goodBlocks_run_state name data f ops e' res hf hk hs hm hv h).2,
+   (Edit.goodBlocks_run name data f ops e' res hf hk hs hm hv h).2⟩
+
+theorem goodBlocks_invariant_session (file : Bytes) (ops : List Edit.Op) (o : Edit.Outcome) (f : File)
+    (hf : parseStrict (B "go.mod") file none = .ok f) (hk : Edit.WellFormedKeys f) (hs : Edit.NoBlockSuffix f.syn)
+    (hm : Edit.MarkersSettable f.syn.stmts) (hv : Edit.StaticValid false ops) (h : Edit.sessionMod file ops = some o) :
+    Edit.goodBlocksB o.tree.stmts = true ∧ (Edit.finalTreeB o.tree = Edit.comShapeB o.tree) := by
+  have hg := Edit.goodBlocks_session file ops o f hf hk hs hm hv h
+  exact ⟨hg, by simp [Edit.finalTreeB, hg]⟩
+
+/-- **typed_eq_reparse (partial 3)** = `typed_eq_reparse_partial` with the final-tree hypothesis reduced to the comment placement:
+    `Edit.comShapeB o.tree` (whole-line comments are `//` texts, a blank-line placeholder only inside a block, not first, not
+    doubled; at most one end-of-line comment per line / `(` / `)`; no `after`; no header comment) — the part of
+    `finalTreeB` that is genuinely not an invariant (`C15_violated_retract_blank_line_dropped`).  The other part, `goodBlocksB`,
+    is now derived (`goodBlocks_invariant`). -/
+theorem typed_eq_reparse_partial3 (file : Bytes) (ops : List Edit.Op) (o : Edit.Outcome) (f : File)
+    (hf : parseStrict (B "go.mod") file none = .ok f) (hk : Edit.WellFormedKeys f) (hs : Edit.NoBlockSuffix f.syn)
+    (hm : Edit.MarkersSettable f.syn.stmts) (hv : Edit.StaticValid false ops)
+    (h : Edit.sessionMod file ops = some o) (hok : Edit.AbsOK o.typed) (hcom : Edit.comShapeB o.tree = true) :
+    ∃ r, o.reparsed = some r ∧ Edit.AbsPerm r o.typed :=
+  Edit.typed_eq_reparse_session3 file ops o f hf hk hs hm hv h hok hcom
+
+/-- `typed_eq_reparse_partial_run` with `comShapeB` as the only final-tree hypothesis -/
+theorem typed_eq_reparse_partial_run3 (name name' data : Bytes) (f : File) (ops : List Edit.Op) (e' : Edit.EFile) (res : List Bool)
+    (hf : parseToFile name data none true = .ok f) (hk : Edit.WellFormedKeys f) (hs : Edit.NoBlockSuffix f.syn)
+    (hm : Edit.MarkersSettable f.syn.stmts) (hv : Edit.StaticValid false ops)
+    (h : Edit.runOps Edit.applyMod (Edit.load f) ops [] 0 = .done e' res)
+    (hok : Edit.AbsOK (Edit.absOf (Edit.cleanup e').f)) (hcom : Edit.comShapeB (Edit.cleanup e').f.syn = true) :
+    ∃ g, parseStrict name' (format (Edit.cleanup e').f.syn) none = .ok g ∧
+      Edit.AbsPerm (Edit.absOf g) (Edit.absOf (Edit.cleanup e').f) :=
+  Edit.typed_eq_reparse_run3 name name' data f ops e' res hf hk hs hm hv h hok hcom
+
+/-- **typed_eq_reparse (partial 4)** = `typed_eq_reparse_partial2` (values conditions on the STARTING file and the OPERATION LIST)
+    with `comShapeB o.tree` as the ONE remaining condition on the final state. -/
+theorem typed_eq_reparse_partial4 (file : Bytes) (ops : List Edit.Op) (o : Edit.Outcome) (f : File)
+    (hf : parseStrict (B "go.mod") file none = .ok f) (hk : Edit.WellFormedKeys f) (hs : Edit.NoBlockSuffix f.syn)
+    (hm : Edit.MarkersSettable f.syn.stmts) (hstart : Edit.AbsOK (Edit.absOf f)) (hv : Edit.StaticValid false ops)
+    (hmod : ∀ op ∈ ops, Edit.IsModOp op) (hargs : ∀ op ∈ ops, Edit.ArgsOK op.toSpec)
+    (h : Edit.sessionMod file ops = some o) (hcom : Edit.comShapeB o.tree = true) :
+    ∃ r, o.reparsed = some r ∧ Edit.AbsPerm r o.typed ∧ Rel o.typed (run stdValidity o.start (ops.map Edit.Op.toSpec)) :=
+  Edit.typed_eq_reparse_session4 file ops o f hf hk hs hm hstart hv hmod hargs h hcom
+
+/-- non-vacuity of `typed_eq_reparse_partial3` / `partial4` / `partial_run3` / `goodBlocks_invariant*`, on the paths the invariant is
+    about: `go` and `toolchain` lines dropped (the dead lines stay in the tree until the final Cleanup) and added again —
+    `AddGoStmt` hinted at the `module` line, `AddToolchainStmt` hinted at the `module` line (go dropped) and the later
+    `AddGoStmt` calls updating / re-adding; the start conditions hold, the session is statically valid with readable
+    arguments, the outcome passes `comShapeB` (and `goodBlocksB`), and here the re-parse equals the typed lists. -/
+example :
+    let src := B "module example.com/m\n\ngo 1.21\n\ntoolchain go1.21.0\n\nrequire example.com/a v1.0.0\n"
+    let ops : List Edit.Op := [.dropGo, .addGo (B "1.22"), .dropToolchain, .dropGo, .addToolchain (B "go1.22.1"), .addGo (B "1.22.1"),
+          .addGo (B "1.23"), .addRequire (B "example.com/b") (B "v1.1.0"), .addModule (B "example.com/n"), .sortBlocks]
+    (match parseStrict (B "go.mod") src none with
+     | .ok f => Edit.startOKb f && f.syn.stmts.all (fun x => match x with
+         | .lineBlock b => b.comments.suffix.isEmpty
+         | _ => true) && decide (Edit.MarkersSettable f.syn.stmts) && Edit.absOKB (Edit.absOf f)
+     | .error _ => false) &&
+    Edit.staticValidB false ops && ops.all (fun op => Edit.argsOKB op.toSpec) &&
+    Edit.outcomeIs (Edit.sessionMod src ops) (fun o => Edit.comShapeB o.tree && Edit.goodBlocksB o.tree.stmts && Edit.absOKB o.typed &&
+      o.typed.go == some (B "1.23") && o.typed.toolchain == some (B "go1.22.1") && o.reparsed == some o.typed) = true := by
+  decide +kernel
+
+/-- … and its operations are go.mod operations -/
+example : ∀ op ∈ ([.dropGo, .addGo (B "1.22"), .dropToolchain, .dropGo, .addToolchain (B "go1.22.1"), .addGo (B "1.22.1"),
+          .addGo (B "1.23"), .addRequire (B "example.com/b") (B "v1.1.0"), .addModule (B "example.com/n"), .sortBlocks] :
+      List Edit.Op), Edit.IsModOp op := by
+  intro op hop
+  simp only [List.mem_cons, List.mem_nil_iff, or_false] at hop
+  rcases hop with rfl | rfl | rfl | rfl | rfl | rfl | rfl | rfl | rfl | rfl <;> trivial
+
+/-- the invariant hypothesis of `op_preserves_goodBlocks` is needed: in a state with a live `go` line but no typed `go` entry
+    (`invB` false — not reachable from a strict parse) `AddGoStmt` does make a `go ( … )` block -/
+example :
+    let e : Edit.EFile := { f := { syn := { stmts := [.line { id := 1, token := [B "go", B "1.20"] }] } }, next := 2 }
+    (match Edit.addGoStmt e (B "1.21") with
+     | .ok e' => Edit.goodBlocksB e.f.syn.stmts && !Edit.goodBlocksB e'.f.syn.stmts && !Edit.invB e
+     | .error _ => false) = true := by decide +kernel
+
+/-- `parsed_goodBlocks`, the excluded input: a `go ( … )` block is one `unknown block type` error of the strict parser -/
+example : (match parseStrict (B "go.mod") (B "module m\n\ngo (\n\t1.21\n)\n") none with
+     | .ok _ => false
+     | .error errs => errs.map (·.kind) == [.unknownBlock]) = true := by decide +kernel
 
 end ModVerif.Props.C15
